@@ -174,6 +174,136 @@ def k_suffix_pre(stem: str, k: int):
     return len(stem) <= 3 and 0 <= k < len(KSUF)
 
 
+# ---- K: the size that is compared with the watermark is the size of the file in bytes ------
+
+class _Text:
+    """text-mode file object as open_potentially_compressed_path(..., 'w', encoding='utf8')
+    yields it: write()/flush(); .buffer.tell() is the number of bytes the UTF-8 encoder has
+    produced so far"""
+
+    def __init__(self):
+        self.chunks = []
+        self.buffer = self
+        self.closed = False
+
+    def __enter__(self):
+        return self
+
+    def __exit__(self, *a):
+        self.closed = True
+        return False
+
+    def write(self, s):
+        if self.closed:
+            raise ValueError('I/O operation on closed file')
+        self.chunks.append(s)
+        return len(s)
+
+    def flush(self):
+        pass
+
+    def tell(self):
+        return utf8_len(self.chunks)
+
+    def close(self):
+        self.closed = True
+
+
+def utf8_len(chunks):
+    n = 0
+    for s in chunks:
+        for ch in s:
+            o = ord(ch)
+            n += 1
+            if o >= 0x80:
+                n += 1
+                if o >= 0x800:
+                    n += 1
+                    if o >= 0x10000:
+                        n += 1
+    return n
+
+
+def _bare_loader(entries, relpath):
+    import gemato.recursiveloader as rl
+    from gemato.manifest import ManifestFile
+    m = ManifestFile()
+    m.entries = entries
+    ld = object.__new__(rl.ManifestRecursiveLoader)
+    ld.root_directory = ROOT
+    ld.top_level_manifest_filename = 'Manifest'
+    ld.loaded_manifests = {relpath: m}
+    ld.updated_manifests = set()
+    ld.sign_openpgp = False
+    ld.openpgp_env = None
+    ld.openpgp_keyid = None
+    return ld
+
+
+SAVE_RELPATHS = ('sub/Manifest', 'sub/Manifest.gz', 'Manifest')
+
+
+def k_save_size(path: str, rp: int, sort: bool, plen: int = 1):
+    import gemato.recursiveloader as rl
+    if 'open_potentially_compressed_path' not in rl.__dict__:
+        raise RuntimeError('seam gemato.recursiveloader.open_potentially_compressed_path gone')
+    relpath = SAVE_RELPATHS[rp]
+    ld = _bare_loader([mk('DATA', path, 7, MD5='00'), mk('IGNORE', 'b')], relpath)
+    made = []
+
+    def opener(p, mode, **kw):
+        f = _Text()
+        made.append((p, mode, kw.get('encoding'), f))
+        return f
+    saved = rl.open_potentially_compressed_path
+    rl.open_potentially_compressed_path = opener
+    try:
+        ret = ld.save_manifest(relpath, sort=sort)
+    finally:
+        rl.open_potentially_compressed_path = saved
+    ok = len(made) == 1 and made[0][0] == ROOT + '/' + relpath and made[0][1] == 'w' \
+        and made[0][2] in ('utf8', 'utf-8', 'UTF-8')
+    nbytes = utf8_len(made[0][3].chunks) if made else -1
+    nchars = sum([len(c) for c in made[0][3].chunks]) if made else -1
+    return ok and ret == nbytes, nbytes != nchars
+
+
+def k_save_size_pre(path: str, rp: int, sort: bool, plen: int = 1):
+    if not (len(path) == plen and 0 <= rp < len(SAVE_RELPATHS)):
+        return False
+    if path[0] == '/':
+        return False
+    for ch in path:
+        if 0xD800 <= ord(ch) <= 0xDFFF:         # not encodable: no file can have this name
+            return False
+    return True
+
+
+def k_save_size_real(a):
+    """the same call on a real directory: return value vs os.path.getsize"""
+    import os
+    import shutil
+    import tempfile
+    relpath = SAVE_RELPATHS[a['rp']]
+    d = tempfile.mkdtemp(prefix='vf-c13-')
+    try:
+        os.mkdir(os.path.join(d, 'sub'))
+        ld = _bare_loader([mk('DATA', a['path'], 7, MD5='00'), mk('IGNORE', 'b')], relpath)
+        ld.root_directory = d
+        ret = ld.save_manifest(relpath, sort=a['sort'])
+        fn = os.path.join(d, relpath)
+        if relpath.endswith('.gz'):
+            import gzip
+            with gzip.open(fn, 'rb') as f:
+                size = len(f.read())
+        else:
+            size = os.path.getsize(fn)
+        return {'reproduced': ret != size, 'detail': f'save_manifest returned {ret}, '
+                f'uncompressed content is {size} bytes'}
+    finally:
+        shutil.rmtree(d)
+
+
 def conditions(tier):
     cs = []
     full = tier != 'quick'
@@ -207,6 +337,20 @@ def conditions(tier):
                            group='K', twin=(rp == 1),
                            descr='want_compressed_manifest of the three profiles vs the '
                                  'documented rule', bounds='any size, any watermark'))
+    for rp, plen in [(0, 1), (1, 1), (2, 1)] + ([(0, 2)] if full else []):
+        c = Cond(f'k_save_size_r{rp}' + ('_l2' if plen == 2 else ''),
+                 specialise(k_save_size, rp=rp, plen=plen),
+                 specialise(k_save_size_pre, rp=rp, plen=plen),
+                 timeout=600 if plen == 1 else 3000, group='K',
+                 descr='real save_manifest + real ManifestFile.dump into a text handle that '
+                       'counts UTF-8 bytes: the size returned to save_manifests (the value '
+                       'compared with the watermark) is the number of bytes of the '
+                       'uncompressed content, for any file name',
+                 bounds='one DATA entry with a symbolic path of one (thorough: also two) arbitrary characters '
+                        '(any code point except surrogates, which no file name can hold) + '
+                        'one IGNORE entry; plain and .gz sub-Manifest, top-level; sort on/off')
+        c.replay_real = (lambda a, _rp=rp: k_save_size_real({**a, 'rp': _rp}))
+        cs.append(c)
     cs.append(Cond('k_suffix', k_suffix, k_suffix_pre, timeout=300, group='K',
                    descr='get_compressed_suffix_from_filename: by suffix only, exact case',
                    bounds='stem any str len<=3, 10 suffix shapes'))
@@ -221,7 +365,9 @@ ASSUMPTIONS = ['compression is a property of the file name in the model (codecs 
                'logical Manifest']
 OUTSIDE = ['real codecs', 'repeated re-compression over several saves',
            'lzma/xz as current formats in the watermark runs (quick)']
-STUBS = ['ModelFS seams', 'ManifestFile.load/dump wrappers']
+STUBS = ['ModelFS seams', 'ManifestFile.load/dump wrappers',
+         'gemato.recursiveloader.open_potentially_compressed_path -> UTF-8 byte counting text '
+         'handle (k_save_size)']
 
 
 def validate(seed, tier):
